@@ -13,6 +13,7 @@
 # See the License for the specific language governing permissions and
 # limitations under the License.
 
+import sys
 import typing
 from typing import Optional, Tuple, Any, Type, Dict, Callable, Union
 
@@ -145,7 +146,9 @@ class Instruction(_mixins.DictMixin, _mixins.RegisterMixin, _mixins.CodeMixin):
     @staticmethod
     def _param_repr(value: Any) -> str:
         if isinstance(value, np.ndarray):
-            return "np." + repr(value)
+            # NOTE: Full round-trip precision, no summarization, qualified dtype names.
+            with np.printoptions(threshold=sys.maxsize, floatmode="unique"):
+                return "np." + repr(value).replace("dtype=", "dtype=np.")
 
         return value
 
